@@ -75,7 +75,7 @@ fn direct_leaf(kind: &LeafKind, pop: &Pop, decoy: &Pop, seed: u64, rep: &mut Rep
     let allowed = leaf_allowed(kind, pop);
     let name = leaf_name(kind);
     let mut paths: Vec<(&'static str, SelOut)> = Vec::new();
-    let rng = || TraceRng::new(seed);
+    let rng = || TraceRng::stream(seed);
     macro_rules! all_paths {
         ($sel:expr) => {{
             let s = $sel;
@@ -131,7 +131,7 @@ fn lexicase_errors(g: &mut Xo, seed: u64, rep: &mut Report) {
         .collect();
     let c = g.usize_below(cases + 3);
     let available = pop.iter().map(|i| i.test_results.results.len()).min().unwrap_or(0);
-    let out = observe_select(&Lexicase::new(c), &pop, &mut TraceRng::new(seed));
+    let out = observe_select(&Lexicase::new(c), &pop, &mut TraceRng::stream(seed));
     rep.eval();
     rep.count(&format!("Lexicase(errors):{}", out.kind()));
     let allowed = if n == 0 {
@@ -181,7 +181,7 @@ fn combination(g: &mut Xo, pop: &Pop, cases: usize, seed: u64, rep: &mut Report)
     let name = format!("Weighted:{shape:?}");
     for draw in 0..4u64 {
         take_leaf_log();
-        let out = sel.sel(pop, &mut TraceRng::new(mix(seed, draw)));
+        let out = sel.sel(pop, &mut TraceRng::stream(mix(seed, draw)));
         let log = take_leaf_log();
         rep.eval();
         rep.count(&format!("{name}:{}", out.kind()));
